@@ -40,9 +40,16 @@ pub fn cr_e(x: u32) -> u32 {
 }
 /// a synthetic function alone on its page (mapped by `execute`)
 pub const LONELY_FN: u64 = 0x6100_0000_0040;
+/// two synthetic pages: a function that ends `edge_off` bytes before the end of the first one,
+/// and a second page whose protection can never be changed (the entry jump fits in the first)
+pub const EDGE_BASE: u64 = 0x6100_0010_0000;
 #[inline(never)]
 fn cr_fake_a(x: u32) -> u32 {
     black_box(x) + 500
+}
+#[inline(never)]
+fn cr_fake_edge() -> u32 {
+    black_box(0x99)
 }
 
 fn site_a() -> (FuncPtr, CallCountVerifier) {
@@ -82,6 +89,10 @@ pub struct CrashScenario {
     pub variant: String,
     pub seed: u64,
     pub index: u64,
+    /// 0 = none; else the synthetic "edge" function starts this many bytes (6..=11) before a page
+    /// whose protection can never be changed
+    #[serde(default)]
+    pub edge_off: u64,
     pub lifetimes: Vec<CrLifetime>,
     pub classes: Vec<String>,
 }
@@ -95,6 +106,10 @@ pub fn generate(profile: &str, seed: u64, index: u64) -> CrashScenario {
     let n_l = if rng.chance(1, 10) { 20 + rng.below(31) as usize } else { 1 + rng.below(6) as usize };
     let mut classes = Vec::new();
     let mut lifetimes = Vec::new();
+    let edge_off = if rng.chance(1, 3) { 6 + rng.below(6) } else { 0 };
+    if edge_off > 0 {
+        classes.push("edge-function-before-immutable-page".into());
+    }
     for _ in 0..n_l {
         let mut steps: Vec<Step> = Vec::new();
         let n_steps = rng.below(7) as usize;
@@ -103,8 +118,10 @@ pub fn generate(profile: &str, seed: u64, index: u64) -> CrashScenario {
         let mut d_counted: Option<(usize, usize)> = None;
         let mut e_counted: Option<(usize, usize)> = None;
         for _ in 0..n_steps {
-            let c = rng.below(12);
+            let c = rng.below(if edge_off > 0 { 15 } else { 12 });
             match c {
+                12 | 13 => steps.push(st("install_edge")),
+                14 => steps.push(st("call_edge")),
                 0 => {
                     steps.push(st("install_a_raw"));
                     a_raw = true;
@@ -222,7 +239,7 @@ pub fn generate(profile: &str, seed: u64, index: u64) -> CrashScenario {
     classes.push(format!("lifetimes-{}", if n_l > 6 { "many" } else { "few" }));
     classes.sort();
     classes.dedup();
-    CrashScenario { engine: "N".into(), family: "crash".into(), profile: profile.into(), variant: "x86_64-linux-native".into(), seed, index, lifetimes, classes }
+    CrashScenario { engine: "N".into(), family: "crash".into(), profile: profile.into(), variant: "x86_64-linux-native".into(), seed, index, edge_off, lifetimes, classes }
 }
 
 fn panic_msg(p: &Box<dyn std::any::Any + Send>) -> String {
@@ -245,7 +262,14 @@ fn slot(addr: usize) -> Vec<u8> {
     unsafe { std::slice::from_raw_parts(addr as *const u8, 16).to_vec() }
 }
 
-fn targets() -> Vec<(&'static str, usize)> {
+fn targets(edge_off: u64) -> Vec<(&'static str, usize)> {
+    let mut v = targets0();
+    if edge_off > 0 {
+        v.push(("edge synthetic function", (EDGE_BASE + 4096 - edge_off) as usize));
+    }
+    v
+}
+fn targets0() -> Vec<(&'static str, usize)> {
     vec![
         ("cr_a", cr_a as fn(u32) -> u32 as usize),
         ("cr_b", cr_b as fn(u32) -> bool as usize),
@@ -302,7 +326,16 @@ pub fn execute(sc: &CrashScenario, sh: &Shared) -> Value {
     }
     crate::arena::write_const_fn(LONELY_FN, 0x77);
     crate::arena::seal_rx(LONELY_FN & !4095, 4096);
-    let tg = targets();
+    let edge_fn = EDGE_BASE + 4096 - sc.edge_off;
+    if sc.edge_off > 0 {
+        if !(6..=11).contains(&sc.edge_off) || !crate::arena::map_rw(EDGE_BASE, 8192) {
+            return json!({"skipped": "edge arena unavailable"});
+        }
+        crate::arena::write_const_fn(edge_fn, 0x66);
+        crate::arena::seal_rx(EDGE_BASE, 8192);
+        interpose::set_permanent_deny(Some((EDGE_BASE + 4096, EDGE_BASE + 8192)));
+    }
+    let tg = targets(sc.edge_off);
     let pristine: Vec<Vec<u8>> = tg.iter().map(|(_, a)| slot(*a)).collect();
     let mut digest = 0xC5u64;
     let mut faults: std::collections::BTreeMap<String, u64> = Default::default();
@@ -320,6 +353,7 @@ pub fn execute(sc: &CrashScenario, sh: &Shared) -> Value {
         let mut a_exp: Option<(usize, usize)> = None; // counted expectation on cr_a, pending until exit
         let mut b_forced: Option<bool> = None;
         let mut c_faked = false;
+        let mut edge_faked = false;
         let mut d_cnt: Option<(usize, usize)> = None;
         let mut e_cnt: Option<(usize, usize)> = None;
         let mut expect_panic: Option<String> = None; // description of the crash we expect
@@ -353,6 +387,17 @@ pub fn execute(sc: &CrashScenario, sh: &Shared) -> Value {
                         N_CE.store(s.n, Ordering::SeqCst);
                         inj.when_called(injectorpp::func!(fn (cr_e)(u32) -> u32)).will_execute(site_e());
                         e_cnt = Some((s.n, 0));
+                    }
+                    "install_edge" if sc.edge_off > 0 => {
+                        inj.when_called(unsafe { FuncPtr::new(edge_fn as *const (), "fn() -> u32") }).will_execute_raw(injectorpp::func!(fn (cr_fake_edge)() -> u32));
+                        edge_faked = true;
+                    }
+                    "call_edge" if sc.edge_off > 0 => {
+                        let got = crate::arena::call_u32(edge_fn);
+                        let want = if edge_faked { 0x99 } else { 0x66 };
+                        if got != want {
+                            v("call-result-differs-from-model", &["C05", "C01"], format!("lifetime {li} step {si}: edge function returned {got:#x}, model {want:#x}"));
+                        }
                     }
                     "install_c_closure" => {
                         inj.when_called(injectorpp::func!(fn (cr_c)() -> String)).will_execute_raw(injectorpp::closure!(|| "fake".to_string(), fn() -> String));
@@ -528,7 +573,7 @@ pub fn execute(sc: &CrashScenario, sh: &Shared) -> Value {
                 v("not-restored-after-unwinding", &["C05", "C02"], format!("{what}: {name} entry bytes {:02x?}, originally {:02x?}", now, pristine[i]));
             }
         }
-        if cr_a(1) != 2 || cr_b(9) != true || cr_b(1) != false || cr_c() != "orig" || cr_e(1) != 4 || crate::arena::call_u32(LONELY_FN) != 0x77 {
+        if cr_a(1) != 2 || cr_b(9) != true || cr_b(1) != false || cr_c() != "orig" || cr_e(1) != 4 || crate::arena::call_u32(LONELY_FN) != 0x77 || (sc.edge_off > 0 && crate::arena::call_u32(edge_fn) != 0x66) {
             v("behaviour-not-original-after-unwinding", &["C05", "C02"], format!("{what}: an original function misbehaves"));
         }
         // ---- a fresh thread gets the guard and can use a new injector normally
@@ -551,6 +596,14 @@ pub fn execute(sc: &CrashScenario, sh: &Shared) -> Value {
     }
     unsafe { libc::alarm(0) };
     sh.note(PH_DONE, 0, 0, 0);
+    interpose::set_permanent_deny(None);
+    let fired = interpose::PERM_DENY_FIRED.load(Ordering::SeqCst);
+    if fired > 0 {
+        faults.insert("mprotect_on_immutable_page_refused".into(), fired);
+    }
+    if sc.edge_off > 0 {
+        *probes.entry("function_ends_before_immutable_page".into()).or_insert(0) += 1;
+    }
     json!({
         "violations": viol.into_inner(),
         "digest": format!("{:016x}", digest),
